@@ -57,7 +57,11 @@ BaseTable ==
     atomic_int |-> [toks |-> <<"_Atomic", "(", "int", ")">>, node |-> IT(<<"int">>), aq |-> <<"_Atomic">>, inner |-> <<>>],
     atomic_T   |-> [toks |-> <<"_Atomic", "(", "T", ")">>, node |-> IT(<<"T">>), aq |-> <<"_Atomic">>, inner |-> <<>>],
     atomic_ptr |-> [toks |-> <<"_Atomic", "(", "int", "*", ")">>, node |-> IT(<<"int">>), aq |-> <<>>,
-                    inner |-> << [k |-> "ptr", q |-> <<"_Atomic">>] >>] ]
+                    inner |-> << [k |-> "ptr", q |-> <<"_Atomic">>] >>],
+    \* _Atomic pointer to function: the type name's own derivations (pointer, then function with its parameter list)
+    \* follow the declarator's, and every declarator of the declaration gets them anew
+    atomic_fptr |-> [toks |-> <<"_Atomic", "(", "int", "(", "*", ")", "(", "int", "p", ",", "...", ")", ")">>, node |-> IT(<<"int">>), aq |-> <<>>,
+                     inner |-> << [k |-> "ptr", q |-> <<"_Atomic">>], [k |-> "fun", p |-> "int_p_ell"] >>] ]
 
 \* ---- declarator syntax trees
 IsDirect(x) == x.k \in {"name", "abs", "paren", "arr", "fun"}
@@ -79,10 +83,12 @@ NamedInt(nm) == [k |-> "Decl", name |-> nm, quals |-> <<>>, align |-> <<>>, stor
 PL(ps) == [k |-> "ParamList", params |-> ps]
 ParToks(p) == CASE p = "empty" -> <<>> [] p = "void" -> <<"void">> [] p = "int" -> <<"int">>
                 [] p = "int_p" -> <<"int", "p">> [] p = "int_char" -> <<"int", ",", "char">>
-                [] p = "int_p_ell" -> <<"int", "p", ",", "...">>
+                [] p = "int_p_ell" -> <<"int", "p", ",", "...">> [] p = "T" -> <<"T">>
 ParNode(p) == CASE p = "empty" -> Nil [] p = "void" -> PL(<<AbsInt("void")>>) [] p = "int" -> PL(<<AbsInt("int")>>)
                 [] p = "int_p" -> PL(<<NamedInt("p")>>) [] p = "int_char" -> PL(<<AbsInt("int"), AbsInt("char")>>)
                 [] p = "int_p_ell" -> PL(<<NamedInt("p"), [k |-> "EllipsisParam"]>>)
+                \* a lone typedef name in parentheses is a parameter type list (6.7.6.3p11), never a parenthesised name
+                [] p = "T" -> PL(<<AbsInt("T")>>)
 
 RECURSIVE Chain(_), Toks(_, _)
 Chain(x) == CASE x.k \in {"name", "abs"} -> <<>>
@@ -130,7 +136,7 @@ Start == IF Abstract THEN [k |-> "abs"] ELSE [k |-> "name"]
 DeclName(i) == IF i = 1 THEN "x" ELSE "y"
 
 Init == /\ ctx \in Ctxs /\ base \in Bases /\ squals \in SpecQuals
-        /\ (base = "atomic_ptr" => squals = <<>>)     \* (qualifiers next to _Atomic(pointer): recorded finding of C07)
+        /\ (base \in {"atomic_ptr", "atomic_fptr"} => squals = <<>>)     \* (qualifiers next to _Atomic(pointer): recorded finding of C07)
         /\ stor \in (IF ctx \in {"file", "block"} THEN Storages ELSE {<<>>})
         /\ d = (IF ctx = "typename" THEN [k |-> "abs"] ELSE [k |-> "name"])
         /\ n = 0 /\ done = FALSE /\ decls = <<>> /\ init = "none"
